@@ -448,7 +448,7 @@ def run(ctx):
     ctx.lean(["Crng.Props.C14"],
              ["Crng.Props.C14.agg_accept_safe", "Crng.Props.C14.agg_old_accept_unsafe", "Crng.Props.C14.dest_accept_safe", "Crng.Props.C14.gn_accept_safe",
               "Crng.Props.C14.ch_ring_nonempty", "Crng.Props.C14.index_guard_safe"],
-             ties=["Crng.Tie.C14"])
+             ties=["Crng.Tie.C14", common.CODE_GUARDS])
     rnd = ctx.rng("c14")
     now = int(time.time())
     n = ctx.scale(240, 4000)
